@@ -213,14 +213,18 @@ def groupCands (g j : Nat) (G : Grp F) (evs : List (Ev F)) (lt fac : F) : Option
       (evs.zipIdx.filter (fun ei => inBand b ei.1.s && inE G.er ei.1.e)).map
         (fun ei => (⟨j, ei.2, g, sk.2⟩, candWeight ei.1.mcw ei.1.f G.unit (omega b) sk.1.2 lt fac)))
 
+/-- append the candidates of one (group, dataset) pair; an error anywhere is an error of the whole -/
+def tableStep {α β : Type} (f : α → Option (List β)) (acc : Option (List β)) (x : α) : Option (List β) :=
+  match acc, f x with
+  | some a, some c => some (a ++ c)
+  | _, _ => none
+
 /-- `itertools.product(enumerate(shg_list), enumerate(data_list))`: group-major.
 `evs g j` = events of dataset `j` with the flux model of group `g` evaluated. -/
 def tableRaw (grps : List (Grp F)) (nDs : Nat) (evs : Nat → Nat → List (Ev F)) (lt : Nat → F) (fac : F) :
     Option (List (Cand × F)) :=
   (grps.zipIdx.flatMap fun gk => (List.range nDs).map (fun j => (gk, j))).foldl
-    (fun acc gj => match acc, groupCands gj.1.2 gj.2 gj.1.1 (evs gj.1.2 gj.2) (lt gj.2) fac with
-      | some a, some c => some (a ++ c)
-      | _, _ => none) (some [])
+    (tableStep (fun gj => groupCands gj.1.2 gj.2 gj.1.1 (evs gj.1.2 gj.2) (lt gj.2) fac)) (some [])
 
 /-- `weight /= sum(weight)` -/
 def normalise (ws : List F) : F × List F :=
